@@ -5,15 +5,8 @@
 //!   verif replay <ID> <file>                              re-execute one saved case (no proptest)
 //!   verif selftest                                        golden vectors against the oracles themselves
 
-mod chooser;
-mod engine;
-mod gen;
-mod model;
-mod props;
-mod selftest;
-mod sut;
-
-use engine::{Mode, Runner, Tier};
+use verif::engine::{self, Mode, Runner, Tier};
+use verif::{props, selftest};
 use std::os::unix::process::ExitStatusExt;
 use std::path::PathBuf;
 use std::process::Command;
